@@ -76,7 +76,11 @@ BossOf(ds, id) == IF ds.row[id].boss \in RowIds(ds) THEN ds.row[id].boss ELSE ""
 
 PlacesOf(ds, id) == ds.pl.of[id]       \* (total on the row ids)
 
-IsSetSym(sym) == \E i \in 1..Len(sym) : sym[i] \in {"roles", "peers", "places"}
+IsSetSym(sym) == \E i \in 1..Len(sym) : sym[i] \in {"roles", "peers", "places", "kids"}
+\* `kids` holds the same ids as `peers`, but its linked type is the plain *child* store: iterating the set gives every id it
+\* holds, a sub-query over it is a query of the child store and sees only the rows that have child data -- by the convention shared
+\* with the harness every second row in id order (r1, r3, r5, r7)
+KidRows(ds) == RowIds(ds) \cap {"r1", "r3", "r5", "r7", "r9"}
 
 \* value of a non-set symbol for row id (Nil when absent)
 RECURSIVE Val(_, _, _)
@@ -97,6 +101,7 @@ Elems(ds, id, sym) ==
     [] h = "places" -> LET q == SetToSeq(PlacesOf(ds, id)) IN
                        IF Len(sym) = 1 \/ sym[2] = "id" THEN [i \in 1..Len(q) |-> S(ds.pl.names[q[i]])]
                        ELSE [i \in 1..Len(q) |-> ds.pl.row[q[i]].s]
+    [] h = "kids" -> LET q == SetToSeq(ds.row[id].peers) IN [i \in 1..Len(q) |-> S(IdStr(ds, q[i]))]
     [] h = "peers" -> LET q == SetToSeq(ds.row[id].peers) IN
                       IF Len(sym) = 1 THEN [i \in 1..Len(q) |-> S(IdStr(ds, q[i]))]
                       ELSE IF IsSetSym(Tail(sym)) THEN FlattenSeq([i \in 1..Len(q) |-> Elems(ds, q[i], Tail(sym))])
@@ -105,6 +110,8 @@ Elems(ds, id, sym) ==
 \* the ids an id-valued set symbol leads to (sub-queries)
 PeerIds(ds, id, sym) == IF sym = <<"peers">> THEN ds.row[id].peers
                         ELSE IF sym = <<"boss", "peers">> /\ BossOf(ds, id) # "" THEN ds.row[BossOf(ds, id)].peers
+                        ELSE IF sym = <<"kids">> THEN ds.row[id].peers \cap KidRows(ds)
+                        ELSE IF sym = <<"boss", "kids">> /\ BossOf(ds, id) # "" THEN ds.row[BossOf(ds, id)].peers \cap KidRows(ds)
                         ELSE IF sym = <<"places">> THEN PlacesOf(ds, id)
                         ELSE IF sym = <<"boss", "places">> /\ BossOf(ds, id) # "" THEN PlacesOf(ds, BossOf(ds, id)) ELSE {}
 \* the dataset a sub-query over sym is evaluated against: the elements of a places set are places, not rows
@@ -155,7 +162,7 @@ Test(a, symType, x) ==
 SymType(sym) ==
   LET l == sym[Len(sym)] IN
   IF \E i \in 1..Len(sym) : sym[i] = "tags" THEN "any"
-  ELSE CASE l \in {"id", "s", "boss", "roles", "peers", "places"} -> "s"
+  ELSE CASE l \in {"id", "s", "boss", "roles", "peers", "places", "kids"} -> "s"
          [] l \in {"n", "m"} -> "n"
          [] l = "f" -> "f"
          [] l = "b" -> "b"
